@@ -4,7 +4,9 @@ import (
 	"flag"
 	"fmt"
 	"os"
+	"runtime/pprof"
 	"strings"
+	"time"
 
 	"vc/internal/vc"
 )
@@ -44,6 +46,12 @@ func cmdFunc(args []string) int {
 	dump := fs.String("dump", "", "directory to write .smt2 files of failed obligations")
 	pkgs := fs.String("pkgs", "./...", "package patterns (comma separated)")
 	fs.Parse(args)
+	t0 := time.Now()
+	if pf := os.Getenv("VCPROF"); pf != "" {
+		f, _ := os.Create(pf)
+		pprof.StartCPUProfile(f)
+		defer pprof.StopCPUProfile()
+	}
 	e, err := vc.Load(*repo, strings.Split(*pkgs, ","), nil)
 	if err != nil {
 		fmt.Fprintln(os.Stderr, err)
@@ -63,7 +71,9 @@ func cmdFunc(args []string) int {
 		}
 		e.VerifyFunc(k)
 	}
-	res := vc.SolveAll(e.Obls, *timeout, 12, 0, "")
+	fmt.Fprintf(os.Stderr, "generated %d obligations at %v\n", len(e.Obls), time.Since(t0))
+	res := vc.SolveAll(e.Obls, *timeout, 16, 0, "")
+	fmt.Fprintf(os.Stderr, "solved at %v\n", time.Since(t0))
 	bad := 0
 	for _, r := range res {
 		mark := "ok  "
